@@ -25,10 +25,16 @@ func init() {
 		Rule: "choice-tree exploration, NOT canonicalised: every corpus template x <=1 insertion from the 11-letter whitespace+comment alphabet x 6 whole-file transforms (identity, CRLF, BOM, tabs->spaces, indentation stripped, CRLF+BOM), " +
 			"and x <=2 insertions from {/*c*/, // c, newline} (thorough: <=2 from the full alphabet, <=3 from the small one on small templates); every candidate go/parser accepts is decorated and printed; " +
 			"oracle: output parses, token stream (kinds + identifier/literal text, all semicolons by kind, separators before closing delimiters dropped) == that of gofmt(input), comments == input's comments in order modulo whitespace; " +
-			"state = candidate text; non-trivial = candidate that is not already gofmt-canonical",
+			"plus 7 hanging-indent contexts x every sequence of <=3 (thorough 4) comment lines at 4 indentations x {no blank line, blank line} x {LF, CRLF, spaces}; state = candidate text; non-trivial = candidate that is not already gofmt-canonical",
 		Assumptions: []string{"go/scanner token stream defines 'token sequence'", "comment texts compared with all whitespace removed (the property allows whitespace to differ)"},
-		Units:       func(tier string) []string { return gapUnits(gen.Templates(), c03Shards) },
-		Run:         runC03,
+		Units: func(tier string) []string {
+			u := gapUnits(gen.Templates(), c03Shards)
+			for _, h := range c03Hanging {
+				u = append(u, "hanging/"+h.Name)
+			}
+			return u
+		},
+		Run: runC03,
 		Check: func(c core.Case) core.Outcome {
 			return checkC03(decodeGap(c).Src)
 		},
@@ -55,7 +61,67 @@ func applyTransform(src, tr string) string {
 	return src
 }
 
+// c03Hanging: contexts in which comments follow an element whose end is indented deeper than its start
+// (the hanging-indent attachment rules); %s receives the comment lines. Every sequence of <=3 (thorough 4)
+// comment lines, each at one of 4 indentations (column 0, start indent, end indent, one deeper), with
+// and without a blank line before the group, is enumerated.
+var c03Hanging = []struct {
+	Name, Before, After string
+	Start               int // tabs of the element's first line
+}{
+	{"case-body", "package a\n\nfunc f() {\n\tswitch x {\n\tcase 1:\n\t\ta()\n", "\tcase 2:\n\t\tb()\n\t}\n}\n", 1},
+	{"empty-case", "package a\n\nfunc f() {\n\tswitch x {\n\tcase 1:\n", "\tdefault:\n\t}\n}\n", 1},
+	{"multiline-stmt", "package a\n\nfunc f() {\n\ta := b +\n\t\tc\n", "\td()\n}\n", 1},
+	{"block-end", "package a\n\nfunc f() {\n\tif x {\n\t\ta()\n", "\t}\n\tb()\n}\n", 1},
+	{"comm-clause", "package a\n\nfunc f() {\n\tselect {\n\tcase <-c:\n\t\ta()\n", "\tdefault:\n\t}\n}\n", 1},
+	{"decl-multiline", "package a\n\nvar a = 1 +\n\t2\n", "var b = 3\n", 0},
+	{"func-end", "package a\n\nfunc f() {\n\ta()\n", "}\n\nfunc g() {}\n", 0},
+}
+
+func runC03Hanging(ctx *core.Ctx, h int) {
+	hc := c03Hanging[h]
+	maxN := 3
+	if ctx.Thorough() {
+		maxN = 4
+	}
+	indents := []int{0, hc.Start, hc.Start + 1, hc.Start + 2}
+	var rec func(prefix []int)
+	rec = func(prefix []int) {
+		for _, blank := range []string{"", "\n"} {
+			for _, tr := range []string{"identity", "crlf", "spaces"} {
+				var b strings.Builder
+				b.WriteString(hc.Before + blank)
+				for i, ind := range prefix {
+					fmt.Fprintf(&b, "%s// h%d\n", strings.Repeat("\t", indents[ind]), i+1)
+				}
+				b.WriteString(hc.After)
+				cand := applyTransform(b.String(), tr)
+				if !gen.Parses(cand) {
+					continue
+				}
+				ctx.CountState(true)
+				ctx.R.Transitions++
+				gc := GapCase{Src: cand, Template: "hanging/" + hc.Name, Variant: tr}
+				ctx.Eval(gc, checkC03(cand))
+				if len(prefix) == 3 && prefix[0] == 2 && prefix[1] == 1 && tr == "identity" {
+					ctx.Sample(gc)
+				}
+			}
+		}
+		if len(prefix) < maxN {
+			for i := range indents {
+				rec(append(append([]int{}, prefix...), i))
+			}
+		}
+	}
+	rec(nil)
+}
+
 func runC03(ctx *core.Ctx, unit int) {
+	if n := len(gen.Templates()) * c03Shards; unit >= n {
+		runC03Hanging(ctx, unit-n)
+		return
+	}
 	ti, shard := splitUnit(unit, c03Shards)
 	t := gen.Templates()[ti]
 	eval := func(cand string, ins []gen.Ins, variant string) {
